@@ -5,6 +5,7 @@ package main
 // (post-crash / post-fault) directory from a fresh process.
 
 import (
+	"crypto/sha1"
 	"bytes"
 	"encoding/json"
 	"fmt"
@@ -35,7 +36,7 @@ type scScenario struct {
 	AuxLen  int    `json:"auxlen"`
 	AuxKind string `json:"auxkind"`
 	NoTmp   bool   `json:"notmp"`
-	TmpKind string `json:"tmpkind"` // "" dir | file | dangling
+	TmpKind string `json:"tmpkind"` // "" dir | file | dangling | otherfs
 	Algo    string `json:"algo"`    // default set algorithm: scrypt | argon
 	Empty   bool   `json:"empty"`
 	WasAdm  bool   `json:"wasadmin"`
@@ -65,6 +66,9 @@ func scScenarios() []scScenario {
 		scScenario{Name: "add-user-tmp-is-file", Op: "add", User: "bob", NewPw: "bob-new", Algo: "scrypt", TmpKind: "file"},
 		scScenario{Name: "update-tmp-is-file", Op: "update", User: "alice", OldPw: "alice-old", NewPw: "alice-new", AuxLen: 100, Algo: "argon", TmpKind: "file"},
 		scScenario{Name: "update-tmp-dangling-symlink", Op: "update", User: "alice", OldPw: "alice-old", NewPw: "alice-new", AuxLen: 100, Algo: "scrypt", TmpKind: "dangling"},
+		// the work area is a link to a directory on another file system: rename(2) from it fails with EXDEV
+		scScenario{Name: "update-tmp-otherfs", Op: "update", User: "alice", OldPw: "alice-old", NewPw: "alice-new", AuxLen: 5000, Algo: "scrypt", TmpKind: "otherfs"},
+		scScenario{Name: "add-user-tmp-otherfs", Op: "add", User: "bob", NewPw: "bob-new", Algo: "argon", TmpKind: "otherfs"},
 		scScenario{Name: "setadmin-up", Op: "setadmin", User: "alice", Admin: true, OldPw: "alice-old", AuxLen: 50, Algo: "scrypt"},
 		scScenario{Name: "setadmin-down", Op: "setadmin", User: "carol", Admin: false, OldPw: "carol-old", AuxLen: 50, Algo: "scrypt", WasAdm: true},
 		scScenario{Name: "setadmin-same", Op: "setadmin", User: "carol", Admin: true, OldPw: "carol-old", Algo: "scrypt", WasAdm: true},
@@ -176,6 +180,12 @@ func scprep() {
 		switch {
 		case sc.TmpKind == "file":
 			os.WriteFile(filepath.Join(base, ".tmp"), []byte("not a directory\n"), 0600) //nolint:errcheck
+		case sc.TmpKind == "otherfs":
+			// /dev/shm is a tmpfs; the name is derived from the run directory so that runs do not share it
+			target := filepath.Join("/dev/shm", fmt.Sprintf("verif-tmp-%s-%x", os.Getenv("VERIF_SHM_TAG"), sha1.Sum([]byte(dir)))[:60])
+			os.RemoveAll(target)                            //nolint:errcheck
+			os.MkdirAll(target, 0700)                       //nolint:errcheck
+			os.Symlink(target, filepath.Join(base, ".tmp")) //nolint:errcheck
 		case sc.TmpKind == "dangling":
 			os.Symlink(filepath.Join(dir, "does-not-exist", "tmp"), filepath.Join(base, ".tmp")) //nolint:errcheck
 		case !sc.NoTmp:
